@@ -46,6 +46,7 @@ type GSpec struct {
 	Tokens     []string // token names, numbered 2.. in declaration order (EOF=0, ERROR=1)
 	Rules      []*GRule // Rules[0] is @start
 	WithBounds bool     // parser type defines _onBounds
+	NilTwin    bool     // Go side: Node is an interface and some actions of non-empty productions return nil
 }
 
 func (s *GSpec) termText(t *GTerm) string {
@@ -164,6 +165,12 @@ func (s *GSpec) GoSource(pkg string) string {
 				args = append(args, fmt.Sprintf("rv(a%d)", q))
 			}
 			// rule index in the lr1 grammar: S' is 0, user rules follow in declaration order
+			if s.NilTwin && len(sig) > 0 && (ri+len(sig)+len(seen))%2 == 0 {
+				// the action runs (and is logged) as usual but hands a nil interface value to its parent
+				fmt.Fprintf(&ms, "func (p *parserT) on_%s__s%d(%s) Node { p.mk(%d, []string{%s}); return nil }\n",
+					r.Name, len(seen)-1, strings.Join(params, ", "), ri+1, strings.Join(args, ", "))
+				continue
+			}
 			fmt.Fprintf(&ms, "func (p *parserT) on_%s__s%d(%s) Node { return p.mk(%d, []string{%s}) }\n",
 				r.Name, len(seen)-1, strings.Join(params, ", "), ri+1, strings.Join(args, ", "))
 		}
@@ -181,6 +188,18 @@ func (s *GSpec) GoSource(pkg string) string {
 	src := strings.ReplaceAll(goPkgTemplate, "PKG", pkg)
 	src = strings.ReplaceAll(src, "METHODS", ms.String()+bounds)
 	src = strings.ReplaceAll(src, "TOKTYPES", tt.String())
+	if s.NilTwin {
+		for _, rp := range [][2]string{
+			{"type Node struct {\n\tS string\n\tK int\n}\n\nfunc (n Node) Discard() bool { return n.K%2 == 1 }", "type Node interface{}\n\ntype nodeS struct {\n\tS string\n\tK int\n}"},
+			{"\tcase Node:\n", "\tcase nil:\n\t\treturn \"_\"\n\tcase nodeS:\n"},
+			{"return Node{S: s, K: len(kids)}", "return nodeS{S: s, K: len(kids)}"},
+		} {
+			if !strings.Contains(src, rp[0]) {
+				panic("NilTwin: template text not found: " + rp[0])
+			}
+			src = strings.Replace(src, rp[0], rp[1], 1)
+		}
+	}
 	return src
 }
 
